@@ -48,6 +48,8 @@ CASES = [
     ('modifiers_method', [('obj.m', 'sigtools.signature'), ('obj.m', 'inspect.signature')]),
     ('modifiers_method', [('obj.m', 'sigtools.signature'), ('obj2.m', 'sigtools.signature')]),
     ('modifiers_method', [('obj.m', 'call'), ('obj2.m', 'call')]),
+    ('modifiers_method', [('obj.m', 'sigtools.signature'), ('obj.m', 'drop-held')]),
+    ('modifiers_method', [('obj.m', 'call'), ('obj.m', 'drop-held')]),
     ('modifiers_wraps', [('w1', 'sigtools.signature'), ('w1', 'inspect.signature')]),
     ('combination', [('w1', 'sigtools.signature'), ('w1', 'inspect.signature')]),
     ('partial_wraps', [('w1', 'sigtools.signature'), ('w0', 'inspect.signature')]),
@@ -79,6 +81,17 @@ def build(name):
 
 def thread_fn(g, texpr, action):
     import sigtools
+    if action == 'drop-held':
+        # this thread got hold of the bound object earlier (it sits in the descriptor's weak cache) and now
+        # lets go of it, a garbage collection following at once
+        import gc
+        held = [scenarios.resolve(g, texpr)]
+
+        def dropper():
+            del held[:]
+            gc.collect()
+            return 'dropped'
+        return dropper
 
     def fn():
         obj = scenarios.resolve(g, texpr)
@@ -215,7 +228,8 @@ def explore(arg):
         if mode == 'thorough':
             ps = allp
         else:
-            ps = sorted(set(evenly(allp, 90, seed)) | set(evenly(sorted(win), 60, seed)))
+            # the first points are the attribute access itself (descriptor caches), always taken
+            ps = sorted(set(evenly(allp, 90, seed)) | set(evenly(sorted(win), 60, seed)) | set(allp[:40]))
         for p in ps:
             if p % nchunks == chunk:
                 run_schedule(name, threads, {(0, p): 1}, expected, st, 'one-preemption')
